@@ -93,9 +93,13 @@ def run(tier, seed, replay):
     for k in range(n):
         r = random.Random("%s/c20/%d" % (seed, k))
         cfg, scopes = conc_cfg(r)
-        sp = common.mk_spec(k, [cfg], keep_out=True)
+        files = [cfg]
+        if k % 2:
+            # scopes, constructors and arguments live in the base file; a later overlay mentions every service again (adds a tag)
+            files = [cfg, {"services": {n: {"tags": ["late"]} for n in cfg["services"]}}]
+        sp = common.mk_spec(k, files, keep_out=True)
         sp["cfg"] = cfg
-        sp["what"] = ["concurrent"]
+        sp["what"] = ["concurrent" + ("/overlay" if k % 2 else "")]
         specs.append(sp)
         metas.append(scopes)
     nbait = 0
@@ -145,6 +149,18 @@ def run(tier, seed, replay):
             # no cgo / race runtime available: fall back to a plain build (counters and identity are still checked)
             p = subprocess.run(["go", "build", "-o", bindir + "/", "./gen/..."], cwd=b.dir, env=gobuild.GOENV, stdout=subprocess.PIPE, stderr=subprocess.STDOUT, text=True, timeout=1800)
         penv = {"PATH": os.environ.get("PATH", ""), "GORACE": "halt_on_error=0"}
+        # run all probe processes up front, several at a time (each one is an independent container in its own process)
+        from concurrent.futures import ThreadPoolExecutor
+        for k, name in names.items():
+            json.dump(hists[k], open(os.path.join(b.dir, name + ".ops.json"), "w"))
+        jobs = [(k, rr) for k, name in names.items() if os.path.exists(os.path.join(bindir, name)) for rr in range(runs)]
+
+        def _probe(job):
+            k, rr = job
+            return job, subprocess.run([os.path.join(bindir, names[k]), os.path.join(b.dir, names[k] + ".ops.json"), "concurrent", "24", "2", str(seed * 100 + rr)],
+                                       env=penv, stdout=subprocess.PIPE, stderr=subprocess.PIPE, text=True, timeout=600)
+        with ThreadPoolExecutor(5) as ex:
+            probed = dict(ex.map(_probe, jobs))
         for k, name in names.items():
             binp = os.path.join(bindir, name)
             if not os.path.exists(binp):
@@ -156,7 +172,7 @@ def run(tier, seed, replay):
             cfg = specs[k]["cfg"]
             inv = {}
             for rr in range(runs):
-                q = subprocess.run([binp, opsf, "concurrent", "24", "2", str(seed * 100 + rr)], env=penv, stdout=subprocess.PIPE, stderr=subprocess.PIPE, text=True, timeout=300)
+                q = probed[(k, rr)]
                 dist["runs"] += 1
                 evals += 24 * 2 * len(hists[k])
                 rep = dict(common.slim(specs[k], obs[k]), history=hists[k], goroutines=24, rounds=2, seed=seed * 100 + rr)
